@@ -23,6 +23,7 @@ mod c02;
 mod c03;
 mod c05;
 mod c06;
+mod c06_view;
 mod c01;
 mod c04;
 
